@@ -145,7 +145,8 @@ Definition c20_check (ops : list lop) (impl_pending : list (list (text * lval * 
    first_diff (c_file c) impl_csv 0,
    map S_ (c_keys c),
    table_eqb (parse_csv (c_file c)) (expected_table (c_keys c) cds),
-   List.length (l_val st)).
+   List.length (l_val st),
+   List.length (parse_csv_skip_blank (c_file c))).
 
 (* ---- extension: log levels, the disabled logger, truncation in the human formats ---- *)
 Definition DISABLED_ : Z := 50%Z.
@@ -159,3 +160,21 @@ Definition truncate (m : nat) (s : text) : text :=
   if Nat.ltb m (List.length s) then firstn (m - 3) s ++ dots else s.
 (* two different keys collide in the table when they are cut to the same text: the writer then raises ValueError *)
 Definition collide (m : nat) (a b : text) : bool := negb (text_eqb a b) && text_eqb (truncate m a) (truncate m b).
+
+(* record_mean needs a number (or nothing) under the key: on a string the implementation raises TypeError *)
+Definition mean_defined (st : lstate) (k : text) : bool :=
+  match get_kv k (l_val st) with Some (LStr _) => false | _ => true end.
+(* the values given to record_mean for key k in a list of operations *)
+Fixpoint mean_values (k : text) (ops : list lop) : list Q :=
+  match ops with
+  | [] => []
+  | ORecordMean k' (Some v) _ :: r => if text_eqb k k' then v :: mean_values k r else mean_values k r
+  | _ :: r => mean_values k r
+  end.
+(* an operation that leaves the running mean of k alone or feeds it: no dump, no record() on k *)
+Definition mean_safe (k : text) (o : lop) : bool :=
+  match o with
+  | ODump => false
+  | ORecord k' _ _ => negb (text_eqb k k')
+  | ORecordMean _ _ _ => true
+  end.
